@@ -266,7 +266,18 @@ func (i *Instance) Schema() schema.GraphInstance {
 
 func (i *Instance) EncodeToAppSchema(appSchema *schema.App, encoder *jbtf.Encoder) {
 	nodeInstances := make(map[string]schema.AppNodeInstance)
+
+	// Encode in a deterministic order so that any binary data nodes write to
+	// the encoder's buffers always lands in the same place
+	orderedNodes := make([]nodes.Node, 0, len(i.nodeIDs))
 	for node := range i.nodeIDs {
+		orderedNodes = append(orderedNodes, node)
+	}
+	sort.Slice(orderedNodes, func(a, b int) bool {
+		return i.nodeIDs[orderedNodes[a]] < i.nodeIDs[orderedNodes[b]]
+	})
+
+	for _, node := range orderedNodes {
 		id, ok := i.nodeIDs[node]
 		if !ok {
 			panic(fmt.Errorf("node %v has not had an ID generated for it", node))
